@@ -9,10 +9,12 @@ mod leb;
 mod memo;
 mod msg;
 mod native;
+mod parse;
 mod principal;
 mod proj;
 mod sub;
 mod suite;
+mod text;
 mod util;
 
 #[global_allocator]
@@ -31,6 +33,8 @@ fn main() {
         "msg" => msg::run(&o),
         "native" => native::run(&o),
         "fuzz" => fuzz::run(&o),
+        "text" => text::run(&o),
+        "parse" => parse::run(&o),
         "principal" => principal::run(&o),
         m => { eprintln!("usage: unknown mode {m}"); std::process::exit(2); }
     }
